@@ -113,7 +113,9 @@ def _lambert(r0, r1, duration, mu, prograde=True):
     nr0, nr1 = np.linalg.norm(r0), np.linalg.norm(r1)
 
     cr = np.cross(r0, r1)
-    dtheta = np.arccos(r0 @ r1 / (nr0 * nr1))
+    # arccos loses half of the significant digits when r0 and r1 are nearly aligned
+    # or opposed, where the sine of the angle, used below, is small
+    dtheta = np.arctan2(np.linalg.norm(cr), r0 @ r1)
 
     if prograde and cr[2] < 0:
         dtheta = 2 * np.pi - dtheta
